@@ -362,6 +362,55 @@ def run(ctx, rep) -> None:
                       "nobody holds the stage, yet the StartStage is consumed (marked processed and acked): the stage never starts and the workflow stays RUNNING with an empty queue",
                       sir.file, h_.lineno, disc="claim-lost-consumed")
 
+    # ---- R9: determine_status - a halted child outranks "children still in progress" -------------------------------------
+    # CompleteStage acts only when determine_status() is not RUNNING. If a NOT_STARTED sibling of a halted child makes it say
+    # RUNNING, the CompleteStage pushed by the halting child is dropped as stale, nobody starts that sibling (its predecessor
+    # halted), and the stage stays RUNNING for good.
+    rep.rule("C05.R9", "StageExecution.determine_status: every `return RUNNING` that is justified by unfinished after-stages is reached only after the halt statuses (TERMINAL / STOPPED / CANCELED) of the after-stages were excluded")
+    from ..dom import conditions_at as _cond_at
+    ds = None
+    for m_ in prog.modules.values():
+        if "StageExecution" in m_.classes and "determine_status" in m_.classes["StageExecution"].methods:
+            ds = m_.classes["StageExecution"].methods["determine_status"]
+    if ds is None:
+        raise AnalysisError("StageExecution.determine_status not found")
+    n9 = 0
+    for r_ in ast.walk(ds.node):
+        if not (isinstance(r_, ast.Return) and r_.value is not None and norm(r_.value) == "WorkflowStatus.RUNNING"):
+            continue
+        facts = _cond_at(ds.node, r_)
+        about_after = [t_ for t_, tr_ in facts if tr_ and "after_stage_statuses" in t_ and t_ != "after_stage_statuses"]
+        if not about_after:
+            continue
+        n9 += 1
+        excluded = {st_ for st_ in ("TERMINAL", "STOPPED", "CANCELED") if (f"WorkflowStatus.{st_} in after_stage_statuses", False) in facts}
+        ok = excluded == {"TERMINAL", "STOPPED", "CANCELED"}
+        branch = "task-less stage" if ("core_statuses", False) in facts else "stage with core work done"
+        rep.check(ok, "C05.R9", f"determine_status ({branch}): RUNNING for unfinished after-stages only when none of them halted", f"halt statuses excluded first: {sorted(excluded)}" if ok else
+                  f"`return RUNNING` under `{about_after[0]}` is reached although an after-stage may be {sorted({'TERMINAL', 'STOPPED', 'CANCELED'} - excluded)}: with chained after-stages (after2 requires after1) and after1 halted, "
+                  "after2 stays NOT_STARTED for ever, determine_status() keeps saying RUNNING, the CompleteStage pushed by after1 is dropped as stale and the stage never completes",
+                  ds.file, r_.lineno, disc=f"after-halt-first:{branch}")
+    rep.floor("RUNNING returns of determine_status justified by after-stages", n9, 1)
+
+    # ---- R10: only a stage that has not started waits for its upstreams -----------------------------------------------------
+    # StartStage's NOT_READY handling (stop polling / re-queue with a budget / fail the stage TERMINAL when the budget is spent)
+    # is meant for a NOT_STARTED stage. A later upstream's StartStage for a join that already fired (stage RUNNING or finished)
+    # is NOT_READY too: re-queued for the whole budget it keeps the engine busy long after the workflow finished, and when the
+    # budget runs out it fails a correctly running stage.
+    rep.rule("C05.R10", "in StartStageHandler.handle the wait-budget branch (re-queue with retry_count + 1 / TERMINAL after max_stage_wait_retries) is reached only for a stage that is still NOT_STARTED")
+    hs_ = prog.func("stabilize.handlers.start_stage.handler", "StartStageHandler.handle.on_stage")
+    budget = [n_ for n_ in ast.walk(hs_.node) if isinstance(n_, ast.Call) and ((norm(n_.func) == "self.set_stage_status" and "TERMINAL" in norm(n_)) or (norm(n_.func) == "StartStage" and any(k_.arg == "retry_count" for k_ in n_.keywords)))]
+    rep.floor("wait-budget actions in StartStage.handle", len(budget), 2)
+    for n_ in budget:
+        facts = _cond_at(hs_.node, n_)
+        in_try_handler = False
+        ok = ("stage.status == WorkflowStatus.NOT_STARTED", True) in facts
+        what = "re-queue with retry_count + 1" if norm(n_.func) == "StartStage" else "fail the stage TERMINAL when the wait budget is spent"
+        rep.check(ok, "C05.R10", f"StartStage.handle: `{what}` only for a NOT_STARTED stage", "reached only with stage.status == NOT_STARTED" if ok else
+                  f"`{what}` is reached whatever the stage's own status: the StartStage pushed by the LOSING upstream of a fired first-of / quorum join (stage already RUNNING or SUCCEEDED, readiness NOT_READY 'already fired') is re-queued "
+                  "max_stage_wait_retries times after the workflow finished, and then the handler tries to mark the stage TERMINAL - a join whose own task runs longer than the budget is failed although it fired correctly",
+                  hs_.file, n_.lineno, disc=f"wait-budget-any-status:{'requeue' if norm(n_.func) == 'StartStage' else 'terminal'}")
+
     # ---- R3 continuation effectiveness ------------------------------------------------------------------
     n3 = 0
     for pi in infos:
